@@ -103,6 +103,10 @@ pub fn catch<T>(f: impl FnOnce() -> T) -> Result<T, String> {
     }
 }
 
+/// Every panic of the process (any thread), in order: (location, message). Read by the
+/// top-level guard in main when a panic escapes a check.
+pub static PANIC_LOG: std::sync::Mutex<Vec<(String, String)>> = std::sync::Mutex::new(Vec::new());
+
 thread_local! {
     pub static LAST_PANIC_LOCATION: std::cell::RefCell<Option<String>> = const { std::cell::RefCell::new(None) };
 }
@@ -115,6 +119,11 @@ pub fn install_quiet_panic_hook() {
             .map(|l| format!("{}:{}", l.file(), l.line()));
         if std::env::var("VERIF_DEBUG_PANIC").is_ok() {
             eprintln!("panic: {}", info);
+        }
+        if let Ok(mut log) = PANIC_LOG.lock() {
+            if log.len() < 64 {
+                log.push((loc.clone().unwrap_or_default(), info.to_string()));
+            }
         }
         LAST_PANIC_LOCATION.with(|l| *l.borrow_mut() = loc);
     }));
